@@ -646,6 +646,7 @@ pub struct RunRecord {
     pub sim_ms: u64,
     pub panics: Vec<crate::core::exec::NodePanic>,
     pub store_fault_fired: bool,
+    pub restart_read_fault_fired: bool,
     pub live_at_end: Vec<String>,
     pub log: EventLog,
     pub stuck_writers: Vec<u32>,
@@ -905,6 +906,7 @@ pub async fn run_scenario(sc: &AgentScenario, keep_log: bool) -> RunRecord {
         sim_ms: 0,
         panics: vec![],
         store_fault_fired: false,
+        restart_read_fault_fired: false,
         live_at_end: vec![],
         log: EventLog::new(false),
         stuck_writers: vec![],
@@ -1044,7 +1046,12 @@ pub async fn run_scenario(sc: &AgentScenario, keep_log: bool) -> RunRecord {
                     if sc.restart && sc.knobs.persistent {
                         rec.restart_step = Some(exec.steps);
                         hist.borrow_mut().marks.push((exec.steps, "restart".into()));
-                        durable.lock().fault = Some(StoreFault::None);
+                        {
+                            let mut d = durable.lock();
+                            d.fault = Some(StoreFault::None);
+                            d.read_fault_at = sc.restart_read_fault;
+                            d.reads_since_armed = 0;
+                        }
                         let mut inc2 = start_incarnation(&mut exec, sc, 1, &durable, &hist, &spawn, t0);
                         // A fresh, fast peer syncs every lane.
                         let script = PeerScript {
@@ -1116,6 +1123,7 @@ pub async fn run_scenario(sc: &AgentScenario, keep_log: bool) -> RunRecord {
         rec.store_log = d.log.clone();
         rec.store_final = Some(image(&d));
         rec.store_fault_fired = d.fault_fired;
+        rec.restart_read_fault_fired = d.read_fault_fired;
     }
     rec.steps = exec.steps;
     rec.decisions = exec.decisions;
